@@ -430,6 +430,10 @@ func (w *worker) run(bi int, beh []map[string]any, res *vh.Result) {
 		completed = 0
 	}
 	nontrivial := false
+	// diverged: the real frames left the model's `out` while every monitor still held. The remaining steps are then
+	// executed blindly (same operations, no comparison) and the monitors keep judging the real frames: a property
+	// broken later is a violation; if none breaks, the divergence is reported as drift.
+	diverged := ""
 	for si := 1; si < len(beh) && completed == 1; si++ {
 		st := beh[si]
 		step := vh.Map(st["step"])
@@ -551,6 +555,10 @@ func (w *worker) run(bi int, beh []map[string]any, res *vh.Result) {
 			}
 			nontrivial = true
 		case "AsyncEnd":
+			if diverged != "" {
+				time.Sleep(20 * time.Millisecond)
+				break
+			}
 			want := 0
 			for _, f := range modelOut(st) {
 				if f.T == "unsub" {
@@ -600,6 +608,9 @@ func (w *worker) run(bi int, beh []map[string]any, res *vh.Result) {
 			completed = 0
 			break
 		}
+		if diverged != "" {
+			continue
+		}
 		if !sameFrames(real, mo) {
 			// pending async ends may already have run on the real side: let them finish and compare again later
 			if vh.Int(st["pend"]) > 0 && len(real) > len(mo) {
@@ -621,11 +632,22 @@ func (w *worker) run(bi int, beh []map[string]any, res *vh.Result) {
 			}
 			if endedInModel && !endedInReal && (r.kind == "pos" || r.kind == "rec") {
 				res.Violate("C01", "no-insufficient-state-end:"+r.kind, fmt.Sprintf("the reference ends the subscription (insufficient state), the real connection was not told: got %s, reference %s (behaviour %d cfg %s)", vh.J(real), vh.J(mo), bi, vh.J(cfg)), map[string]any{"cfg": cfg, "steps": steps, "frames": real, "model_out": mo})
+				completed = 0
 			} else {
-				drift(fmt.Sprintf("frames differ after %s: real %s, model %s", act, vh.J(real), vh.J(mo)))
+				diverged = fmt.Sprintf("frames differ after %s: real %s, model %s", act, vh.J(real), vh.J(mo))
 			}
-			completed = 0
 		}
+	}
+	if diverged != "" && completed == 1 {
+		time.Sleep(20 * time.Millisecond)
+		if vs := r.monitors(r.project()); len(vs) > 0 {
+			for _, v := range vs {
+				res.Violate(v.prop, v.sig, v.what+fmt.Sprintf(" (behaviour %d cfg %s; first divergence: %s)", bi, vh.J(cfg), diverged), map[string]any{"cfg": cfg, "steps": steps, "frames": r.project()})
+			}
+		} else {
+			drift(diverged)
+		}
+		completed = 0
 	}
 	// make sure a parked subscriber is released before leaving
 	r.g1.Release()
